@@ -10,6 +10,32 @@ class UserExc(Exception):
         self.tok = tok
 
 
+# user exceptions come in the classes the library itself raises or catches somewhere: whatever its class, the object
+# a function raises must reach the caller unchanged (C10: "the same object for user exceptions")
+class UserTypeError(UserExc, TypeError):
+    pass
+
+
+class UserValueError(UserExc, ValueError):
+    pass
+
+
+class UserRuntimeError(UserExc, RuntimeError):
+    pass
+
+
+class UserKeyError(UserExc, KeyError):
+    pass
+
+
+USER_EXC_CLASSES = [UserExc, UserExc, UserTypeError, UserValueError, UserRuntimeError, UserKeyError, UserExc]
+
+
+def make_user_exc(tok):
+    cls = USER_EXC_CLASSES[tok % len(USER_EXC_CLASSES)] if isinstance(tok, int) else UserExc
+    return cls(tok)
+
+
 # ---------- text form shared with FB.DSL.render / digest ----------
 def escape_str(s):
     return s.replace('\\', '\\\\').replace('"', '\\"')
@@ -432,7 +458,7 @@ def exec_stmts(ctx, stmts, b, target, acc):
                     raise
                 acc.append(['e', fault_cls(ctx, e, depth)])
         elif k == 'raise':
-            e = UserExc(st[1])
+            e = make_user_exc(st[1])
             ctx.raised.setdefault(st[1], []).append(e)
             raise e
         elif k == 'w':
